@@ -686,7 +686,7 @@ class VectorFamily(C13Family):
 
 # ----------------------------------------------------------------------------- numbered variables
 
-INDICES = [0, 1, -1, 12, -345]
+INDICES = [0, 1, -1, 12, -345, 10, 101, -100]      # incl. indices with a zero after the first digit
 NSET = [11, 13]
 PLAINSET = [17, 19]
 
@@ -735,8 +735,8 @@ class NumberedFamily(C13Family):
         for samples in (1, 2):
             for dep_mode in range(4):
                 for collide in range(3):
-                    for ia in range(5):
-                        for ib in range(5):
+                    for ia in range(len(INDICES)):
+                        for ib in range(len(INDICES)):
                             for rev in ((0, 1) if samples == 1 else (0,)):
                                 yield (ia, ib, dep_mode, collide, samples, rev)
 
